@@ -301,7 +301,11 @@ class HMF(object):
         self.g, foo = kmeans(whitespectra, self.K)
         # log.debug((self.normbase(), M))
         # log.debug(self.g.shape)
-        self.g /= np.repeat(self.normbase(), M - n_zero).reshape(self.g.shape)
+        #
+        # self.g covers the contiguous good columns only, which may be fewer
+        # than M - n_zero.
+        #
+        self.g /= np.repeat(self.normbase(), self.g.shape[1]).reshape(self.g.shape)
         log.debug(self.g[0:3, 0:3])
         #
         # Initialize a matrix
@@ -325,7 +329,7 @@ class HMF(object):
                 self.g = self.gstep()
                 self.a, self.g = self.reorder()
             norm = self.normbase()
-            self.g /= np.repeat(norm, M - n_zero).reshape(self.g.shape)
+            self.g /= np.repeat(norm, self.g.shape[1]).reshape(self.g.shape)
             self.a = (self.a.T*np.repeat(norm, N).reshape(self.K, N)).T
             log.debug(self.a[0:3, 0:3])
             log.debug(self.g[0:3, 0:3])
